@@ -19,6 +19,22 @@ func c03Gen(rng *rand.Rand, m *model.Model, keys []string) []string {
 		k = pick(rng, keys) // wrong-typed or missing sometimes
 	}
 	n := modelLen(m, 0, k)
+	if rng.Intn(40) == 0 {
+		// wide commands: 65-200 arguments (loops that work in batches have their boundaries there)
+		w := 65 + rng.Intn(136)
+		switch rng.Intn(4) {
+		case 0, 1:
+			a := []string{pick(rng, []string{"RPUSH", "LPUSH"}), k}
+			for i := 0; i < w; i++ {
+				a = append(a, "w"+strconv.Itoa(i%7))
+			}
+			return a
+		case 2:
+			return []string{pick(rng, []string{"LPOP", "RPOP"}), k, strconv.Itoa(w)}
+		}
+		a := []string{"LMPOP", "3", "l0", "l1", "l2", pick(rng, []string{"LEFT", "RIGHT"}), "COUNT", strconv.Itoa(w)}
+		return a
+	}
 	el := func() string { return pick(rng, c03Elems) }
 	idx := func() string {
 		if rng.Intn(10) == 0 {
